@@ -94,6 +94,9 @@ pub struct Net {
     floods: HashMap<String, Arc<Mutex<(u64, Option<&'static str>, u64)>>>,
     /// the LD_PRELOAD recorder, when it is loaded: faults on the server's store files
     io: Option<crate::store::IoTrace>,
+    pub fast_fail: usize,
+    timeouts: usize,
+    serve_wait_ms: u64,
 }
 
 enum ReadEnd {
@@ -172,6 +175,9 @@ impl Net {
             bg_merge: None,
             floods: HashMap::new(),
             io: crate::store::IoTrace::load(),
+            fast_fail: 0,
+            timeouts: 0,
+            serve_wait_ms: 10000,
         }
     }
 
@@ -397,7 +403,23 @@ impl Net {
     }
 
     pub fn step(&mut self, toks: &[&str]) -> String {
-        self.step_inner(toks).unwrap_or_else(|| "bad-op".into())
+        // `--fast-fail n` (sessions in which a correct server never lets a read time out): once n reads have timed out the
+        // server is plainly not answering any more, and every later read waits 250 ms instead of its 5-10 s, so that the
+        // session ends in minutes and the check can say what it saw
+        let reading = matches!(toks.first().copied(), Some("c.read" | "c.readraw" | "c.readall" | "serve"));
+        let fast = self.fast_fail > 0 && self.timeouts >= self.fast_fail;
+        let mut toks2: Vec<&str> = toks.to_vec();
+        if fast && reading && toks[0] != "serve" {
+            if let Some(last) = toks2.last_mut() {
+                *last = "250";
+            }
+        }
+        self.serve_wait_ms = if fast { 250 } else { 10000 };
+        let a = self.step_inner(&toks2).unwrap_or_else(|| "bad-op".into());
+        if reading && a.contains("timeout") {
+            self.timeouts += 1;
+        }
+        a
     }
 
     fn step_inner(&mut self, toks: &[&str]) -> Option<String> {
@@ -549,7 +571,7 @@ impl Net {
                 }
                 let _ = s.shutdown(NetShutdown::Write);
                 let mut buf = vec![];
-                let deadline = Instant::now() + Duration::from_secs(10);
+                let deadline = Instant::now() + Duration::from_millis(self.serve_wait_ms);
                 let end = loop {
                     if let Some(e) = Self::read_some(&mut s, &mut buf, deadline) {
                         break e;
